@@ -85,7 +85,7 @@ KINDS = {
 }
 
 
-def key_of(r, spec_bad):
+def key_of(r, spec_bad, code=0):
     """specific finding keys: entry point + failing input class"""
     k = r["k"]
     suffix = "spec" if spec_bad else "model"
@@ -100,7 +100,15 @@ def key_of(r, spec_bad):
     if k == "proof":
         return "c11:proof:%s:%s" % ("dup" if r.get("dup") else "nodup", suffix)
     if k == "seq":
-        return "c11:seq:%s:%s" % (r.get("gen"), suffix)
+        d = code // 4  # detail of check_seq: 1 state, 2 reload, 4 proofs, 8 right witnesses, 16 failing proofs are stale-index hits
+        if spec_bad and d == 4 + 16 and not r.get("panic"):
+            # ONLY proofs fail and every failing proof resolved a present value to a position holding another value
+            return "c11:seq:stale-hash-index:spec"
+        parts = [n for b, n in ((1, "state"), (2, "reload"), (4, "proofs"), (8, "right-witness")) if d & b]
+        gen = r.get("gen")
+        if gen == "stale-hash-index":
+            gen = "stale-hash-index-case"  # the known key is reserved for the classified defect above
+        return "c11:seq:%s:%s:%s" % (gen, "+".join(parts) or ("panic" if r.get("panic") else "-"), suffix)
     if k == "rwx":
         return "c11:rwx:%s:%s" % ("hang-or-panic" if r.get("root") is None else "value", suffix)
     return "c11:%s:%s" % (k, suffix)
@@ -153,14 +161,14 @@ def evaluate(ck, recs):
             else:
                 ck.nontrivial(("rw", r["n"], r["idx"]))
             if r.get("panic"):
-                code = max(code, 2)
+                code |= 2
             if code != 0:
-                spec_bad = code >= 2
+                spec_bad = code % 4 >= 2
                 small = {k: v for k, v in r.items() if k not in ("sibs", "proofs", "rws")}
                 what = "rmt %s: implementation %s (code %d)%s on %s" % (
                     kind, "violates the C11 oracle" if spec_bad else "differs from the proved model", code,
                     " panic=" + r["panic"] if r.get("panic") else "", json.dumps(small)[:700])
-                f = dict(kind="input", key=key_of(r, spec_bad), what=what, case=r,
+                f = dict(kind="input", key=key_of(r, spec_bad, code), what=what, case=r,
                          theorem_or_correspondence="Corr.C11.%s vs pkg/trie/rmt" % fn)
                 f["spec_violated"] = spec_bad
                 ck.failures.append(f)
